@@ -8,6 +8,12 @@ from z3 import z3
 from inference.conditional import Conditional
 
 
+# Key under which the CNFs of the current query are kept in v_cnf_dict / f_cnf_dict.
+# Not an int, so it cannot clash with the key of a conditional of the belief base
+# (bases may be keyed from 0).
+QUERY_KEY = "query"
+
+
 class TseitinTransformation:
     epistemic_state: dict[str, object]
 
